@@ -173,6 +173,7 @@ class Result:
         self.bounds = {}
         self.determinism_reruns = 0
         self.extra = {}
+        self.state_keys = set()  # hashes of distinct abstract states visited (measured, merged across workers)
 
     # -- recording
     def outcome(self, obj):
@@ -196,6 +197,10 @@ class Result:
             if size < v["size"]:
                 v.update(msg=msg, replay=replay, size=size)
 
+    def visit(self, *key):
+        """Record one visited abstract state (for the `states` count of engines without an explicit state graph)."""
+        self.state_keys.add(stable_hash(list(key)))
+
     def add(self, key, n=1):
         self.extra[key] = self.extra.get(key, 0) + n
 
@@ -203,6 +208,7 @@ class Result:
     def to_dict(self):
         d = dict(self.__dict__)
         d["outcomes"] = sorted(self.outcomes)
+        d["state_keys"] = sorted(self.state_keys)
         return d
 
     def merge(self, d):
@@ -213,6 +219,7 @@ class Result:
         self.transitions += d["transitions"]
         self.checks += d["checks"]
         self.outcomes.update(d["outcomes"])
+        self.state_keys.update(d.get("state_keys", ()))
         for s in d["samples"]:
             self.sample(s, limit=6)
         for sig, v in d["violations"].items():
@@ -298,6 +305,8 @@ def finish(pid, tier, seed, res, wall, rule, assumptions, exhaustive=True):
     for v in old:
         print(f"KNOWN-FINDING: property={pid} {v['sig']} - {known[(pid, v['sig'])]} (seen {v['count']}x)")
 
+    if res.state_keys:
+        res.states = max(res.states, 0) + len(res.state_keys) if res.extra.get("states_are_additive") else len(res.state_keys)
     cov = dict(
         states=max(res.states, 0),
         transitions=max(res.transitions, 0),
